@@ -22,7 +22,7 @@ for sid in ids:
     try:
         for p in props:
             t0 = time.time()
-            pr = subprocess.run(['python3-vt', ROOT + '/bin/check.py', '--property', p, '--tier', 'quick'], capture_output=True, text=True, cwd=ROOT, env=dict(os.environ, VERIF_STOP_EARLY='1'))
+            pr = subprocess.run(['python3-vt', ROOT + '/bin/check.py', '--property', p, '--tier', 'quick'], capture_output=True, text=True, cwd=ROOT, env=dict(os.environ, VERIF_STOP_EARLY='1', VERIF_EVIDENCE_DIR='/verif/.build/evidence-seeded'))
             viol = [l for l in pr.stdout.splitlines() if l.startswith('VIOLATION')]
             det = [l.strip() for l in pr.stdout.splitlines() if l.startswith('  ') and ':' in l][:3]
             inc = [l for l in pr.stdout.splitlines() if l.startswith('INCONCLUSIVE')][:3]
